@@ -17,6 +17,13 @@ def run_harness(exe, lines, env_extra=None, timeout=3600):
     env.setdefault('UBSAN_OPTIONS', 'print_stacktrace=1')
     if env_extra:
         env.update(env_extra)
+    save = os.environ.get('VERIF_SAVE_REQUESTS')
+    if save:                      # development aid (py/coverage.py): keep every request stream for a coverage replay
+        os.makedirs(save, exist_ok=True)
+        n = len(os.listdir(save))
+        with open(os.path.join(save, f'req{n:05d}_{os.getpid()}.txt'), 'w') as f:
+            f.write('\n'.join(lines) + '\n')
+            f.write('#ENV ' + ' '.join(f'{k}={v}' for k, v in (env_extra or {}).items()) + '\n')
     r = subprocess.run([exe], input='\n'.join(lines) + '\n', capture_output=True, text=True, env=env, timeout=timeout)
     rep = parse_replies(r.stdout)
     if r.returncode != 0:
